@@ -526,6 +526,7 @@ func init() {
 			wEmbD := pair{"#E0: {p: b: {x: *1 | int}}\nt1: {\n\tq: b: {x?: int}\n\t#E0\n\tp: b: {y: 2}\n\tq\n\tp.b\n}\n", "#E0: {p: b: {x: *1 | int}}\nt1: {\n\t#E0\n\tp.b\n\tp: b: {y: 2}\n\tq: b: {x?: int}\n\tq\n}\n", []string{gen.RPermute}}
 			pairs := []pair{
 				wEmbD,
+				{"f0: (*0 | int) & (*4 | int) & >=0.5\nf3: (*3 | int) & f0\n", "f0: (*4 | int) & (*0 | int)\nf0: >=0.5\nf3: (*3 | int) & f0\n", []string{gen.RSwap, gen.RSplit}},
 				{"s: {a?: int}\nx: {for k, v in s {(k): v}}\n", "s: {a?: int}\nx: {for k, v in s {(k): v}} & _\n", []string{gen.RTop}},
 				{"y: {d?: 2, a: 4} | {a?: int, d: 1}\n", "y: ({d?: 2, a: 4} | {a?: int, d: 1}) & ({d?: 2, a: 4} | {a?: int, d: 1})\n", []string{gen.RDuplicate}},
 				{"I: int\nx: I & >1 & <2\n", "I: int\nx: >1 & <2 & I\n", []string{gen.RSwap}},
